@@ -42,8 +42,14 @@ ASSUMPTIONS = [
     'vle=True and conserve_phases=True are exercised as the last operation of a case with totals only (the model predicts the '
     'per-chemical totals, not the phase layout a flash or the phases setter produces; after a flash totals are compared to '
     '1e-9 relative, the split g + l = total being exact only to rounding); flash failures are not C01 failures',
-    'a property package is modelled as the list of its CAS numbers; `chemicals is other_chemicals` is equality of package ids; '
-    'chemical groups / aliases shared between packages are not generated',
+    'a property package is modelled as the list of its CAS numbers (the ids are read off the real Chemicals object: index of '
+    'chemical.CAS in the reference list); `chemicals is other_chemicals` is equality of package ids; in most cases one '
+    'sub-package is built from separately constructed Chemical objects carrying other IDs for the same CAS numbers (H2O, EtOH, '
+    '...) and in ~30 % another carries the usual IDs on other substances (equal ID, different CAS); chemical groups / aliases '
+    'shared between packages are not generated',
+    'whole cases are scaled by 2^-40 (20 %) or 2^30 (12 %): flows between 1e-13 and 1e15; the flash (vle) only at ordinary magnitudes',
+    'an enthalpy solve that fails on an input with non-negative flows is an oracle failure (eb:enthalpy-solve-failed), not a skip; '
+    'with negative flows (outside the quantifier) the rest of the case is skipped',
     'sparse rows are modelled by their dense image; stored zeros do not occur on the dyadic alphabet (C09 covers the sparse invariants)',
     'holders of shared flow data (phase views S[j][p], flow proxies, the constituents of MultiStream.from_streams) are extra '
     'stream indices; a holder and its owner are afterwards only read or scaled in place (scale, *=, /=), never a receiver / '
@@ -68,6 +74,8 @@ EXHAUSTIVE = {'quick': False, 'thorough': False}
 tmo = None
 NAMES = ['Water', 'Ethanol', 'Methanol', 'Glycerol', 'Propanol', 'Octane']
 CHEMS = []
+ALT_NAMES = ['H2O', 'EtOH', 'MeOH', 'Glycerin', 'nPrOH', 'nC8']
+ALT_CHEMS, SWAP_CHEMS, CASIDX = [], [], {}
 PHASES = 'slgSL'
 
 
@@ -77,6 +85,11 @@ def setup():
     tmo = tmo_
     warnings.simplefilter('ignore')
     CHEMS = [tmo.Chemical(n, cache=True) for n in NAMES]
+    # the same substances (same CAS) under other IDs, as separately constructed Chemical objects, and the six IDs
+    # attached to *other* substances (equal ID, different CAS): what decides a remap between packages is the CAS number
+    ALT_CHEMS[:] = [tmo.Chemical(a, search_ID=n) for a, n in zip(ALT_NAMES, NAMES)]
+    SWAP_CHEMS[:] = [tmo.Chemical(NAMES[(i + 3) % 6], search_ID=n) for i, n in enumerate(NAMES)]
+    CASIDX.clear(); CASIDX.update({c.CAS: i for i, c in enumerate(CHEMS)})
     # hypothesis monitor: did an enthalpy setter give up during a call?  (Stream.mix_from then re-phases the receiver and
     # mixes a second time inside a bare `except:`; that path is decided by the thermodynamic models.)
     for cls in (tmo.Stream, tmo.MultiStream):
@@ -158,8 +171,15 @@ class Universe:
 
     # ---- observation (real objects only) -------------------------------------------------
     def pkg_of(self, s):
-        for th, ids in self.pkgs:
+        """chemical ids of the stream's package, in package order; the ids are CAS numbers (index of the CAS in the
+        reference list), read off the real `Chemicals` object when the package was built"""
+        for th, ids, _ in self.pkgs:
             if th.chemicals is s.chemicals: return ids
+        raise ErrorInOp('stream with an unknown package')
+
+    def names_of(self, s):
+        for th, _, names in self.pkgs:
+            if th.chemicals is s.chemicals: return names
         raise ErrorInOp('stream with an unknown package')
 
     def is_multi(self, s):
@@ -207,7 +227,7 @@ class Universe:
 
     def poisoned(self):
         """an entry written by indexer.index_overlap that CompiledChemicals._get_index_and_kind misreads (C10 defect #2)"""
-        for th, _ in self.pkgs:
+        for th, _, _ in self.pkgs:
             for key, val in getattr(th.chemicals, '_index_cache', {}).items():
                 if isinstance(key, tuple) and isinstance(val, tuple) and len(val) == 2 and val[1] == 0 \
                         and isinstance(val[0], list):
@@ -216,8 +236,7 @@ class Universe:
 
     # ---- operations --------------------------------------------------------------------------
     def new_stream(self, pkg, kind, phases, rows, order=None):
-        th, ids = self.pkgs[pkg]
-        names = [NAMES[c] for c in ids]
+        th, ids, names = self.pkgs[pkg]
         if order is not None:
             # flows entered one by one in the given order of positions: the sparse rows get that key order
             # (index_overlap's cache key is the CAS tuple in key order)
@@ -259,8 +278,11 @@ class Universe:
         S = self.streams
         if op == 'pkg':
             ids = [int(x) for x in t[1].split(',')]
-            th = tmo.Thermo(tmo.Chemicals([CHEMS[c] for c in ids]))
-            self.pkgs.append((th, ids))
+            pool = {'alt': ALT_CHEMS, 'swap': SWAP_CHEMS}.get(t[2] if len(t) > 2 else '', CHEMS)
+            th = tmo.Thermo(tmo.Chemicals([pool[c] for c in ids]))
+            cas_ids = [CASIDX[cas] for cas in th.chemicals.CASs]        # the oracle's key: the real CAS numbers
+            if cas_ids != ids: raise ErrorInOp('package built with other CAS numbers than asked for')
+            self.pkgs.append((th, cas_ids, list(th.chemicals.IDs)))
             if len(self.pkgs) == 1: tmo.settings.set_thermo(th)     # `a + b` builds its result on the default package
             return 'ok'
         if op == 'new':
@@ -285,10 +307,14 @@ class Universe:
         elif op == 'sep':
             S[int(t[1])].separate_out(self.ref(t[2]), energy_balance=eb)
         elif op == 'copy':
-            if t[3] == '*': ids = ...
-            elif t[3].startswith('='): ids = NAMES[int(t[3][1:])]
-            else: ids = tuple(NAMES[c] for c in parse_ids(t[3]))
             d = S[int(t[1])]
+            # IDs are looked up in the source's package by Stream.copy_flow, in the destination's by MultiStream.copy_flow
+            look = d if self.is_multi(d) else S[int(t[2])]
+            nm = dict(zip(self.pkg_of(look), self.names_of(look)))
+            name = lambda c: nm.get(c, f'NoSuchChemical{c}')
+            if t[3] == '*': ids = ...
+            elif t[3].startswith('='): ids = name(int(t[3][1:]))
+            else: ids = tuple(name(c) for c in parse_ids(t[3]))
             if self.is_multi(d):
                 ph = ... if len(t) < 7 or t[6] == '*' else t[6]
                 d.copy_flow(S[int(t[2])], ph, ids, remove=(t[4] == '1'), exclude=(t[5] == '1'))
@@ -617,12 +643,12 @@ SAFE_DEN = 1 << 24
 SAFE_MAX = 1 << 20
 
 
-def safe(U):
-    """every stored value stays on the grid on which the float arithmetic of the next op is exact"""
+def safe(U, mag=1):
+    """every stored value stays on the grid (scaled by the case's magnitude) on which the float arithmetic of the next op is exact"""
     for s in U.streams:
         for _, r in U.rows(s):
             for v in r:
-                if abs(v) >= SAFE_MAX or (v * SAFE_DEN).denominator != 1: return False
+                if abs(v) >= SAFE_MAX * mag or (v * SAFE_DEN / mag).denominator != 1: return False
     return True
 
 
@@ -653,6 +679,11 @@ def run_ops(ops):
                 if is_numerics(e):
                     # the enthalpy solve gave up: the case ends here without a verdict on this line
                     U.tags.add('eb:numerics-skip')
+                    if before is not None and all(b['nonneg'] for b in before):
+                        # all flows non-negative, every stream at 298.15 K: the enthalpy solve has no reason to give up
+                        failures.append({'signature': 'eb:enthalpy-solve-failed', 'op_index': i,
+                                         'what': f'`{line}` (all flows non-negative) raised {type(e).__name__} out of the '
+                                                 f'thermodynamic code: {str(e)[:100]}; the case is not judged from here on'})
                     # from here on the real state is not the model's: the driver is not asked about these lines
                     outs.extend(['skip=numerics'] * (len(ops) - i))
                     model_in[-1:] = ['skip'] * (len(ops) - i)
@@ -663,6 +694,10 @@ def run_ops(ops):
             # the enthalpy solve failed and was handled inside the call (re-phase and re-mix, or worse): the material result
             # is still judged by the oracle below, but the model does not follow that path
             U.tags.add('eb:H-setter-failed-inside-call')
+            if before is not None and all(b['nonneg'] for b in before):
+                failures.append({'signature': 'eb:enthalpy-solve-failed', 'op_index': i,
+                                 'what': f'during `{line}` (all flows non-negative) an enthalpy setter raised and the call went '
+                                         f'on (re-phase / re-mix fallback); the case is not judged from here on'})
             o = 'skip=numerics'; dead = True; model_in[-1] = 'skip'
         outs.append(o)
         t0 = line.split(' ')
@@ -739,7 +774,15 @@ def protect_prefix(case):
 
 def dy(rng, zero=0.3):
     if rng.random() < zero: return Fraction(0)
-    return Fraction(rng.randrange(1, 257), 1 << rng.randrange(0, 4))
+    return Fraction(rng.randrange(1, 257), 1 << rng.randrange(0, 4)) * getattr(rng, 'mag', 1)
+
+
+def draw_magnitude(rng):
+    """the whole case is scaled by a power of two: exactness does not need O(1) flows, and thresholds on small or large
+    flows (a tolerance in isempty, dropped trace entries) only show at other magnitudes"""
+    r = rng.random()
+    rng.mag = Fraction(1) if r < 0.68 else (Fraction(1, 1 << 40) if r < 0.88 else Fraction(1 << 30))
+    return rng.mag
 
 
 def fr(v):
@@ -867,6 +910,7 @@ def gen_op0(rng, U):
         toks = [x if not (x.startswith(f'{r}.') and x.split('.')[1] not in S[r].phases) else f'{r}.{rng.choice(S[r].phases)}'
                 for x in toks]
         return [f'mix {r} {",".join(toks) if toks else "-"}' + EB(rng)]
+    if kind == 'mixvle' and getattr(rng, 'mag', 1) != 1: kind = 'mixcp'       # the flash is run at ordinary magnitudes only
     if kind in ('mixvle', 'mixcp'):
         # vle=True / conserve_phases=True: totals only, ends the case.  For the flash everything is gas/liquid.
         gl = [i for i in idx if all(p in 'gl' for p in S[i].phases)] if kind == 'mixvle' else idx
@@ -1006,9 +1050,21 @@ def build(lines):
     return U, True
 
 
+def pkg_lines(rng, pkgs):
+    """package 3 (the re-ordering of package 1) is built from separately constructed chemicals with other IDs for the same
+    CAS numbers; package 2 sometimes carries the six IDs on other substances.  Only when the CAS lists differ from every
+    other package's, because MultiStream.copy_flow accepts a source whose ID tuple equals the destination's."""
+    flags = [''] * len(pkgs)
+    distinct = lambda k: all(pkgs[k] != pkgs[j] for j in range(len(pkgs)) if j != k)
+    if len(pkgs) > 3 and len(pkgs[3]) >= 2 and distinct(3) and rng.random() < 0.8: flags[3] = ' alt'
+    if distinct(2) and rng.random() < 0.3: flags[2] = ' swap'
+    return ['pkg ' + ','.join(map(str, p)) + f for p, f in zip(pkgs, flags)]
+
+
 def gen_random(rng, nstreams, nops):
+    mag = draw_magnitude(rng)
     pkgs = gen_pkgs(rng, subset=rng.random() < 0.88)
-    ops = ['pkg ' + ','.join(map(str, p)) for p in pkgs]
+    ops = pkg_lines(rng, pkgs)
     for _ in range(nstreams):
         ops.append(gen_new(rng, pkgs))
     U, ok = build(ops)
@@ -1023,7 +1079,7 @@ def gen_random(rng, nstreams, nops):
             except ErrorInOp: raise
             except Exception: return Case(ops, {})
             if HFAIL[0]: return Case(ops, {})       # the enthalpy solve failed inside the call: the case ends here
-        if not safe(U):
+        if not safe(U, mag):
             for _ in new: ops.pop()
             break
         if len(U.streams) > 10: break
@@ -1105,8 +1161,9 @@ def S_phase_tok(new_line):
 
 
 def make_grid_case(rng, spec):
+    draw_magnitude(rng)
     pkgs = gen_pkgs(rng, subset=True)
-    ops = ['pkg ' + ','.join(map(str, p)) for p in pkgs]
+    ops = pkg_lines(rng, pkgs)
     kind = spec[0]
     if kind == 'mix':
         _, sub, rk, rel, selfin, shape = spec
@@ -1159,10 +1216,12 @@ def make_grid_case(rng, spec):
         # package 0 receives; B and C hold the same set (all of package 1, or all of package 0) in two orders
         B, C = (4, 0) if big else (1, 3)
         if big:
-            pkgs = pkgs + [reorder(rng, pkgs[0])]; ops.append('pkg ' + ','.join(map(str, pkgs[5]))); C = 5
+            pkgs = pkgs + [reorder(rng, pkgs[0])]
+            ops.append('pkg ' + ','.join(map(str, pkgs[5])) + (' alt' if all(pkgs[5] != q for q in pkgs[:5]) else '')); C = 5
         elif len(pkgs[1]) < 2:
             pkgs[1] = rng.sample(pkgs[0], 2); pkgs[3] = list(reversed(pkgs[1]))
-            ops[1] = 'pkg ' + ','.join(map(str, pkgs[1])); ops[3] = 'pkg ' + ','.join(map(str, pkgs[3]))
+            ops[1] = 'pkg ' + ','.join(map(str, pkgs[1]))
+            ops[3] = 'pkg ' + ','.join(map(str, pkgs[3])) + (' alt' if all(pkgs[3] != pkgs[j] for j in (0, 1, 2, 4)) else '')
         rph = 'gl' if rng.random() < 0.5 else ''.join(rng.sample(PHASES, 3))
         def recv(): ops.append(gen_new(rng, pkgs, 0, rk, rph if rk == 'M' else rng.choice('lg'), empty=rng.random() < 0.5)); return nstreams(ops) - 1
         def inlet(pk, order):
@@ -1222,8 +1281,13 @@ def make_grid_case(rng, spec):
         if which == 'own': ops += [f'sep 0 0.{p}', f'sep 0 0.{rng.choice(xph)}']
         elif which == 'own-variant': ops += [f'sep 0 0.{swapc(xph[0])}', f'sep 0 0.{xph[1]}']
         elif which == 'other': ops += [f'mix 2 2,0', f'sep 2 0.{p}', f'sep 2 0']
-        elif which == 'mix-own': ops += [f'mix 0 0.{p},1,0.{rng.choice(xph)}' if rel == 'same' else f'mix 0 0.{p},0.{rng.choice(xph)}',
-                                         f'mix 0 0,0.{p}']
+        elif which == 'mix-own':
+            e = EB(rng, 0.5)
+            ops += [f'mix 0 0.{p},1,0.{rng.choice(xph)}' + e if rel == 'same' else f'mix 0 0.{p},0.{rng.choice(xph)}' + e,
+                    f'mix 0 0,0.{p}' + e]
+            # the view is the only non-empty inlet (the others are empty streams), with the default energy balance
+            ops.append(gen_new(rng, pkgs, 0, 'S', rng.choice('lgs'), empty=True)); e3 = nstreams(ops) - 1
+            ops += [f'mix 0 {e3},0.{rng.choice(xph)} eb', f'mix 0 0.{rng.choice(xph)},{e3},{e3} eb']
         elif which == 'mix-other': ops += [f'mix 1 0.{p},2.{rng.choice(xph)},1', f'mix 2 0.{p},0', f'sep 2 0.{p}']
         else:
             ops.append(gen_new(rng, pkgs, 0, 'S', rng.choice('ls'), empty=False))           # 3: single-phase, S[3]['l'] is S[3]
@@ -1317,6 +1381,27 @@ def corpus():
         Case(['pkg 0,1,2', 'new 0 M gl 0,0,0;0,0,0', 'new 0 S l 1,2,3', 'copy 0 1 * 1 1 *']),
         # one phase separated out of its own multi-phase stream, a view of the receiver among the inlets
         Case(P + ['new 0 M gl 3,1,0,0,0,0;5,2,4,0,0,0', 'new 0 S l 1,0,0,0,0,0', 'sep 0 0.g', 'mix 0 0.l,1,0', 'sep 0 0.L', 'sep 1 1.L']),
+        # C01-15: the only non-empty inlet is a phase view of the receiver, default energy balance (copy_like of an own view)
+        Case(P + ['new 0 M gl 0,0,0,0,0,0;5,2,0,0,0,0', 'new 0 S l 0,0,0,0,0,0', 'mix 0 1,0.l eb', 'mix 0 0.l eb', 'mix 0 0.l,0.g,1 eb']),
+        Case(P + ['new 0 M Lgs 1,0,0,0,0,0;0,2,0,0,0,0;0,0,3,0,0,0', 'new 0 S g 0,0,0,0,0,0', 'mix 0 1,0.s,1 eb', 'sep 0 0.s eb']),
+        # default energy balance: one non-empty inlet is copied (copy_like), single- and multi-phase, other package
+        Case(P + ['new 0 S l 1,1,1,1,1,1', 'new 1 M gl 1,2,0;0,0,4', 'new 2 S s 0,0,0,0', 'mix 0 1,2 eb', 'mix 1 0 eb', 'sum 0 1,2 eb']),
+        Case(P + ['new 0 M gl 8,8,0,0,0,0;0,4,4,0,0,0', 'new 0 S l 1,1,1,1,1,1', 'new 2 S s 1,1,1,1', 'split 0 1 2 s 1/4 eb', 'split 1 0 2 v 1/2,1/4,0,0,0,1 eb']),
+        # operator forms
+        Case(P + ['new 0 S l 1,2,0,0,0,0', 'new 1 S g 1,2,4', 'new 0 M gl 1,0,0,0,0,0;0,1,0,0,0,0', 'iadd 0 1', 'add 0 2', 'isub 0 1', 'iadd 2 0',
+                  'neg 1', 'rmul 2 3/2', 'imul 2 1/2', 'imul 0 0']),
+        # holders of shared flow data: scale the owner, a view, a proxy, a from_streams assembly; then split the owner
+        Case(P + ['new 0 M gl 3,1,0,0,0,0;5,2,4,0,0,0', 'obs 0.l', 'obs 0', 'new 0 S l 0,0,0,0,0,0', 'new 0 S g 0,0,0,0,0,0', 'imul 0 3',
+                  'imul 1 1/2', 'scale 2 2', 'idiv 1 4', 'split 0 3 4 s 1/4']),
+        Case(P + ['new 0 S l 2,5,0,0,0,0', 'new 0 S g 1,0,4,0,0,0', 'from 0,1', 'new 0 S l 0,0,0,0,0,0', 'new 0 S l 0,0,0,0,0,0', 'imul 2 3',
+                  'imul 0 1/2', 'obs 2.g', 'scale 5 2', 'split 2 3 4 v 1/2,1/4,1,0,0,0 eb']),
+        # a package with other IDs for the same CAS numbers, one with the usual IDs on other substances; tiny and huge flows
+        Case(['pkg 0,1,2', 'pkg 1,0 alt', 'pkg 0,1 swap', 'new 0 S l 0,0,0', 'new 1 S l 2,5', 'new 2 S g 7,11', 'new 1 M gl 1,0;0,3',
+              'mix 0 1,2', 'mix 0 1,2,3 eb', 'sep 0 3', 'split 1 0 2 s 1/2', 'copy 0 3 =1 1 0', 'copy 0 2 0 1 1']),
+        Case(['pkg 0,1,2', 'pkg 1,0 alt', 'new 0 S l 1/1099511627776,3/4398046511104,0', 'new 1 S g 5/1099511627776,1/2199023255552',
+              'new 0 M gl 0,0,0;1/1099511627776,0,0', 'mix 2 0,1,2', 'mix 0 1,2 eb', 'sep 2 1', 'split 2 0 1 s 1/4']),
+        Case(['pkg 0,1,2', 'pkg 1,0 alt', 'new 0 S l 1073741824,3221225472,0', 'new 1 S g 5368709120,1073741824',
+              'new 0 M gl 0,0,0;1073741824,0,0', 'mix 2 0,1,2', 'mix 0 1,2 eb', 'sep 2 1', 'split 2 0 1 s 1/4']),
         # the remap cache of one receiver package sees the same chemical set in two orders (two packages, then two entry orders)
         Case(['pkg 0,1,2', 'pkg 1,0', 'pkg 0,1', 'new 0 S l 0,0,0', 'new 0 S l 0,0,0', 'new 1 S l 2,5', 'new 1 S l 1,3',
               'new 2 S l 7,11', 'new 2 S l 13,17', 'mix 0 2,3', 'mix 1 4,5', 'mix 0 2,4,5', 'new 2 S l 2,3 o0,1',
